@@ -224,40 +224,50 @@ func (w *worker) raceReports() []string {
 	return out
 }
 
-var frameRe = regexp.MustCompile(`(?m)^  ([^\s(]+)\(`)
+var frameRe = regexp.MustCompile(`(?m)^  (\S+)\(\)$`)
 
-// raceKey de-duplicates a report by the pair of top frames inside
-// github.com/llir/llvm of the two accesses (line numbers are not part of the
-// frame names).
+// raceKey de-duplicates a report by the pair of outermost llir/llvm frames of
+// the two accesses (the entry points the workload called) plus the innermost
+// llir/llvm frame of the writing access (the mutation at fault); line numbers
+// are not part of frame names.
 func raceKey(report string) (key string, inRepo bool) {
 	parts := strings.Split(report, "\n\n")
-	var tops []string
+	var outers []string
+	writer := ""
 	for _, p := range parts {
-		if !(strings.Contains(p, " by goroutine") || strings.Contains(p, "by main goroutine")) {
+		tp := strings.TrimSpace(p)
+		if strings.HasPrefix(tp, "Goroutine ") || !(strings.Contains(p, " by goroutine") || strings.Contains(p, "by main goroutine")) {
 			continue
 		}
-		if strings.HasPrefix(strings.TrimSpace(p), "Goroutine ") {
-			continue
-		}
-		top := ""
+		isWrite := strings.HasPrefix(tp, "Write at") || strings.HasPrefix(tp, "Previous write at") || strings.HasPrefix(tp, "WARNING: DATA RACE\nWrite at")
+		inner, outer := "", ""
 		for _, m := range frameRe.FindAllStringSubmatch(p, -1) {
 			if strings.Contains(m[1], "github.com/llir/llvm/") {
-				top = m[1]
-				break
+				f := strings.TrimPrefix(m[1], "github.com/llir/llvm/")
+				if inner == "" {
+					inner = f
+				}
+				if f == "ir.(*Module).String" {
+					f = "ir.(*Module).WriteTo" // String is WriteTo into a buffer: one entry point
+				}
+				outer = f
 			}
 		}
-		tops = append(tops, top)
-		if len(tops) == 2 {
+		if isWrite && writer == "" {
+			writer = inner
+		}
+		outers = append(outers, outer)
+		if len(outers) == 2 {
 			break
 		}
 	}
-	for _, t := range tops {
+	for _, t := range outers {
 		if t != "" {
 			inRepo = true
 		}
 	}
-	sort.Strings(tops)
-	return strings.Join(tops, " <-> "), inRepo
+	sort.Strings(outers)
+	return strings.Join(outers, "<->") + "@write:" + writer, inRepo
 }
 
 func parentMain(chk *Check, tier string, seed int64, replay string) int {
@@ -410,12 +420,20 @@ func parentMain(chk *Check, tier string, seed int64, replay string) int {
 					return
 				}
 				resp.Rec.caseID = cid
+				if chk.FreshProcess {
+					// the race detector reports each stack pair once per process: a fresh
+					// process per case keeps one case from masking another
+					w.stop()
+				}
 				races := w.raceReports()
 				mu.Lock()
 				caseTimes[cid] = time.Since(t0).Seconds()
 				merged.Merge(resp.Rec)
 				addRaces(merged, chk, tier, seed, cid, races)
 				mu.Unlock()
+				if chk.FreshProcess {
+					w = nil
+				}
 			}
 		}(wi)
 	}
@@ -447,8 +465,13 @@ func firstFatalLine(tail string) string {
 }
 
 func addRaces(merged *Rec, chk *Check, tier string, seed int64, cid string, races []string) {
+	scenario := cid
+	if i := strings.Index(cid, "/"); i > 0 {
+		scenario = cid[:i]
+	}
 	for _, rep := range races {
 		key, inRepo := raceKey(rep)
+		key = scenario + "/" + key
 		merged.TallyLocked("race_reports", key)
 		if !inRepo {
 			// a race entirely inside the harness is a machinery bug, reported loudly but separately
